@@ -37,10 +37,21 @@ def shards(tier):
 
 
 def required_classes(tier):
-    return ["op:field", "op:field-adhoc", "op:curve", "op:pairing", "op:hash", "op:zcash", "op:bls", "op:secp", "history", "repeat-in-history", "adhoc-class-created-mid-history"]
+    return ["op:persist", "op:field", "op:field-adhoc", "op:curve", "op:pairing", "op:hash", "op:zcash", "op:bls", "op:secp", "history", "repeat-in-history", "adhoc-class-created-mid-history"]
 
 
 # ------------------------------------------------------------------------------------------------ the pool
+PERSIST_SPEC = {}     # key -> (class, degree, value of x, value of y)
+PERSIST = {}          # key -> {"x": element, "y": element}; re-created at the start of every history
+
+
+def fresh_persistent_objects():
+    for key, (cls, deg, va, vb) in PERSIST_SPEC.items():
+        d = PERSIST.setdefault(key, {})
+        d["x"] = cls(va[0]) if deg == 1 else cls(list(va))
+        d["y"] = cls(vb[0]) if deg == 1 else cls(list(vb))
+
+
 def build_pool(seed, quick):
     """[(group, name, weight, make_call)] -- make_call() -> (callable, args list).  The pool is the same in every
     shard / interpreter (seeded independently of the shard)."""
@@ -78,6 +89,21 @@ def build_pool(seed, quick):
                 add("field", "%s.inv[%d]" % (tag, i), 1, lambda a=a, c=ctor: ((lambda x: x.inv()), [c(a)]))
                 add("field", "%s.ctor_from_list[%d]" % (tag, i), 1, lambda a=a, cls=cls: ((lambda lst: cls(lst)), [list(a)]))
         add("field", "%s.one_zero" % tag, 1, lambda cls=cls: ((lambda: (cls.one(), cls.zero())), []))
+    # ---- persistent objects: the same element / point OBJECTS are reused by several operations of a history (as a caller
+    #      who keeps a point around does); equal values must give equal results whatever was done with the object before
+    for (impl, curve, deg), (cls, _F) in classes.items():
+        p = cls.field_modulus
+        va = tuple(rng.randrange(p) for _ in range(deg))
+        vb = tuple(rng.randrange(p) for _ in range(deg))
+        key = "P.%s.%s.%d" % (impl, curve, deg)
+        PERSIST_SPEC[key] = (cls, deg, va, vb)
+        tag = "persist.%s.%s.FQ%s" % (impl, curve, "" if deg == 1 else deg)
+        if impl == "opt":
+            add("persist", tag + ".sgn0(x)", 2, lambda key=key: ((lambda P: P["x"].sgn0), [PERSIST[key]]))
+            add("persist", tag + ".sgn0(x+y)", 2, lambda key=key: ((lambda P: (P["x"] + P["y"]).sgn0), [PERSIST[key]]))
+            add("persist", tag + ".sgn0(x-y,x*y,x*3)", 2, lambda key=key: ((lambda P: ((P["x"] - P["y"]).sgn0, (P["x"] * P["y"]).sgn0, (P["x"] * 3).sgn0, (-P["x"]).sgn0)), [PERSIST[key]]))
+        add("persist", tag + ".x*y+x", 1, lambda key=key: ((lambda P: P["x"] * P["y"] + P["x"]), [PERSIST[key]]))
+        add("persist", tag + ".x/y,x**5", 1, lambda key=key: ((lambda P: (P["x"] / P["y"], P["x"] ** 5, P["x"] == P["y"])), [PERSIST[key]]))
     # ---- fields: ad-hoc subclasses created inside the history (other primes, other moduli)
     for impl in ("ref", "opt"):
         for p, mc in ((7, None), (13, (1, 0)), (5, (2, 0)), (7, (1, 0)), (7, (2, 0)), (11, (3, 0, 0, 0, 0, 0, 1, 0, 0, 0, 0, 0)), (101, (2, 0))):
@@ -127,6 +153,9 @@ def build_pool(seed, quick):
         add("pairing", "%s.pairing(G2,G1)" % mk_, w / 2, lambda pm=pm, c=c: (pm.pairing, [c.G2, c.G1]))
         if opt:
             add("pairing", "%s.pairing.nofinal" % mk_, 1, lambda pm=pm, q=pts2[1], p_=pts1[0], L=L: ((lambda Q, P_: pm.pairing(Q, P_, final_exponentiate=False)), [L(q, 2, False), L(p_, 1, True)]))
+            # same operands as the plain "pairing" operation above, other value of the flag (keyword and positional)
+            add("pairing", "%s.pairing.nofinal(same operands)" % mk_, 2, lambda pm=pm, q=pts2[0], p_=pts1[1], L=L: ((lambda Q, P_: pm.pairing(Q, P_, final_exponentiate=False)), [L(q, 2, True), L(p_, 1, True)]))
+            add("pairing", "%s.pairing.nofinal(G2,G1)" % mk_, 1, lambda pm=pm, c=c: ((lambda Q, P_: pm.pairing(Q, P_, False)), [c.G2, c.G1]))
             add("pairing", "%s.final_exponentiate" % mk_, 1, lambda pm=pm, c=c, v=[rng.randrange(S.p) for _ in range(12)]: (pm.final_exponentiate, [c.FQ12(list(v))]))
             if hasattr(pm, "exp_by_p"):
                 add("pairing", "%s.exp_by_p" % mk_, 2, lambda pm=pm, c=c, v=[rng.randrange(S.p) for _ in range(12)]: (pm.exp_by_p, [c.FQ12(list(v))]))
@@ -280,6 +309,7 @@ def run(rec):
     for h in range(n_hist):
         hist = "shard%d/h%d" % (rec.shard, h)
         rec.case("history", None, nontrivial=False)
+        fresh_persistent_objects()
         seq_ops = rng.choices(range(len(pool)), weights=weights, k=n_calls)
         # repetitions inside one history, at different positions
         for _ in range(n_calls // 6):
